@@ -1383,3 +1383,58 @@ Proof.
   split; [apply bal_range_decide; vm_compute; reflexivity|]. split; [vm_compute; reflexivity|].
   split; [zclosed|]. eexists. eexists. split; [vm_compute; reflexivity|]. vm_compute. reflexivity.
 Qed.
+
+(* ================================================================== what fails without the bounds *)
+(* INTENDED (C16 literally): "at the end of the block the proposer is credited with exactly the sum
+   of the fees".  AcctCtrler.EndBlock tests [SumFee().Sign() > 0] on a uint256 whose Sign() is -1
+   from 2^255 on: a fee sum of 2^255 or more is not paid at all.  Reachable under [params_ok] and
+   [tx_wf] from a genesis whose supply is of that size (price 2^191, three transactions with the
+   maximal gas limit): hence the hypothesis [b_feesum < two255] of [end_block_proposer_credit],
+   which InvSupply derives from the supply bound. *)
+Definition big_params : params := {|
+  g_version := 1; g_maxValidatorCnt := 21; g_minValidatorStake := 7 * amountPerPower;
+  g_minDelegatorStake := 0; g_rewardPerPower := 1000; g_lazyRewardBlocks := 10; g_lazyApplyingBlocks := 10;
+  g_gasPrice := 2 ^ 191; g_minTrxGas := 4000; g_maxTrxGas := 25000000; g_maxBlockGas := 100000000;
+  g_minVotingPeriodBlocks := 1; g_maxVotingPeriodBlocks := 100; g_minSelfStakeRatio := 50;
+  g_maxUpdatableStakeRatio := 30; g_maxIndividualStakeRatio := 10000000; g_slashRatio := 50;
+  g_signedBlocksWindow := 10000; g_minSignedBlocks := 500 |}.
+Definition big_genesis : genesis := {|
+  gen_params := big_params; gen_holders := [(1%N, 2 ^ 256 - 1); (2%N, 0)]; gen_validators := [(11%N, 100)] |}.
+Definition big_tx (n : Z) : tx :=
+  {| t_type := TRX_TRANSFER; t_from := 1%N; t_to := 2%N; t_from_ok := true; t_to_ok := true; t_amount := 0;
+     t_price := 2 ^ 191; t_gas := maxInt64; t_nonce := n; t_payload := PNone; t_hash := 0%N; t_sigok := true;
+     t_evm := None |}.
+
+Theorem C16_fee_sum_dropped_refuted :
+  exists g txs pa,
+    let s0 := init_chain g in
+    let hd := demo_hdr 1 (Some pa) in
+    let s2 := srun s0 ([SBegin hd] ++ map SDeliver txs) in
+    params_ok (gen_params g) /\ Forall tx_wf txs /\ bal_range (work s0) /\
+    (deliver_all (begin_block s0 hd).1 txs).2 = [Ok maxInt64; Ok maxInt64; Ok maxInt64] /\
+    b_proposer (bctx s2) = Some pa /\ two255 <= b_feesum (bctx s2) < two256 /\
+    exists s3 ups, end_block s2 = (s3, Ok ups) /\ bal_of (work s3) pa = bal_of (work s2) pa.
+Proof.
+  exists big_genesis, [big_tx 0; big_tx 1; big_tx 2], 11%N. cbv zeta.
+  split; [zclosed|]. split; [repeat apply Forall_cons_2; try apply Forall_nil_2; zclosed|].
+  split; [apply bal_range_decide; vm_compute; reflexivity|].
+  split; [vm_compute; reflexivity|]. split; [vm_compute; reflexivity|]. split; [zclosed|].
+  eexists. eexists. split; vm_compute; reflexivity.
+Qed.
+
+(* INTENDED (C16/C02 literally): "no balance ever wraps".  AddBalance is addition modulo 2^256: a
+   transfer to an account whose balance + amount reaches 2^256 wraps.  Hence the explicit room
+   hypotheses of [deliver_native_balances]; InvSupply discharges them from the supply bound. *)
+Theorem transfer_wrap_refuted :
+  exists s t s' g,
+    deliver s t = (s', Ok g) /\ native s t /\ tx_wf t /\ bal_range (work s) /\ params_ok (gparams s) /\
+    0 < t_amount t /\ bal_of (work s') (t_to t) < bal_of (work s) (t_to t).
+Proof.
+  set (g := {| gen_params := demo_params; gen_holders := [(1%N, 1000 * amountPerPower); (2%N, 2 ^ 256 - 1)];
+               gen_validators := [(11%N, 100)] |}).
+  exists (begin_block (init_chain g) (demo_hdr 1 (Some 11%N))).1.
+  exists (demo_tx TRX_TRANSFER 1%N 2%N 1 4000 0 PNone 300%N).
+  eexists. eexists. split; [vm_compute; reflexivity|]. split; [vm_compute; reflexivity|].
+  split; [zclosed|]. split; [apply bal_range_decide; vm_compute; reflexivity|]. split; [zclosed|].
+  split; vm_compute; reflexivity.
+Qed.
